@@ -2,11 +2,14 @@
 //! routes, guards, defaults, app data) and reports what each request reached
 //! (spec/routing/RoutingRef.tla).
 use crate::util::TraceOut;
-use actix_web::{guard, http::Method, test, web, App, HttpRequest, HttpResponse, Resource, Scope};
+use actix_web::{guard, http::Method, test, web, App, HttpMessage as _, HttpRequest, HttpResponse, Resource, Scope};
 use serde_json::{json, Value};
 
 #[derive(Clone, Copy)]
 struct Tag(u64);
+/// what `ServiceRequest::app_data::<Tag>()` gave the middleware of the innermost scope the request went through
+#[derive(Clone, Copy)]
+struct MwSeen(u64);
 
 fn chars(v: &Value) -> String {
     v.as_array().map(|a| a.iter().map(|c| c.as_str().unwrap()).collect()).unwrap_or_default()
@@ -27,7 +30,8 @@ fn pat_string(p: &Value) -> String {
 fn answer(id: u64, req: &HttpRequest) -> HttpResponse {
     let caps: Vec<Value> = req.match_info().iter().map(|(n, v)| json!([n, v.chars().map(|c| c.to_string()).collect::<Vec<_>>()])).collect();
     let data = req.app_data::<Tag>().map(|t| t.0).unwrap_or(0);
-    HttpResponse::Ok().body(json!({"id": id, "caps": caps, "data": data}).to_string())
+    let mw = req.extensions().get::<MwSeen>().map(|m| m.0).unwrap_or(0);
+    HttpResponse::Ok().body(json!({"id": id, "caps": caps, "data": data, "mw": mw}).to_string())
 }
 
 fn method_guard(m: &str) -> Option<std::rc::Rc<dyn guard::Guard>> {
@@ -65,7 +69,17 @@ fn build_resource(n: &Value) -> Resource {
     r
 }
 
-fn build_scope(n: &Value) -> Scope {
+fn build_scope(
+    n: &Value,
+) -> Scope<
+    impl actix_web::dev::ServiceFactory<
+        actix_web::dev::ServiceRequest,
+        Config = (),
+        Response = actix_web::dev::ServiceResponse,
+        Error = actix_web::Error,
+        InitError = (),
+    >,
+> {
     let mut s = web::scope(&pat_string(&n["prefix"]));
     if let Some(g) = method_guard(n["guard"].as_str().unwrap()) {
         s = s.guard(g);
@@ -83,7 +97,14 @@ fn build_scope(n: &Value) -> Scope {
     if d != 0 {
         s = s.default_service(web::to(move |req: HttpRequest| async move { answer(d, &req) }));
     }
-    s
+    // the scope's own middleware looks the tag up through the ServiceRequest (the last scope on the way in wins)
+    s.wrap_fn(|req, srv| {
+        use actix_web::dev::Service as _;
+        use actix_web::HttpMessage as _;
+        let seen = req.app_data::<Tag>().map(|t| t.0).unwrap_or(0);
+        req.extensions_mut().insert(MwSeen(seen));
+        srv.call(req)
+    })
 }
 
 pub fn replay(cases: &[Value], out: &mut TraceOut) {
@@ -114,8 +135,8 @@ pub fn replay(cases: &[Value], out: &mut TraceOut) {
                 let res = test::call_service(&svc, req).await;
                 let status = res.status().as_u16();
                 let body = test::read_body(res).await;
-                let v: Value = serde_json::from_slice(&body).unwrap_or(json!({"id":0,"caps":[],"data":0}));
-                out.emit(json!({"ev":"route","method":method,"path":p["path"],"enc":p["enc"],"hx":hx,"status":status,"id":v["id"],"caps":v["caps"],"data":v["data"]}));
+                let v: Value = serde_json::from_slice(&body).unwrap_or(json!({"id":0,"caps":[],"data":0,"mw":0}));
+                out.emit(json!({"ev":"route","method":method,"path":p["path"],"enc":p["enc"],"hx":hx,"status":status,"id":v["id"],"caps":v["caps"],"data":v["data"],"mw":v["mw"]}));
             }
         }
     });
